@@ -114,6 +114,8 @@ func leadingZeros(b []byte) int {
 	return n
 }
 
+var honestModelCases, honestModelMax = 0, 150
+
 // ---- transport of one proof (real or synthetic) ----
 func transportCase(pk vrf.VRFPublicKey, pi []byte, m []byte, honest bool, origin string) {
 	bi := vrf.VRFProve(pi).Big() // CastBlock: pi.Big()
@@ -146,11 +148,70 @@ func transportCase(pk vrf.VRFPublicKey, pi []byte, m []byte, honest bool, origin
 	if ok1 != ok2 || q1 != q2 || (p1 == nil) != (p2 == nil) {
 		res.Violate("C16/transport:qn-changed", fmt.Sprintf("validateProve (%v,%d) before, (%v,%d) after transport", ok1, q1, ok2, q2), in)
 	}
-	cs.Add(fmt.Sprintf("CT %s %s %s %s", hx.CoqHex(pi), hx.CoqHex(carried), zlit(value), zlit(hv)),
-		map[string]interface{}{"kind": "transport", "origin": origin, "in": in})
+	// every case is evaluated on the implementation above; the model gets all cases with leading zero
+	// bytes, all synthetic ones and the first honestModelMax ordinary honest proofs (they are all alike)
+	if origin != "honest" || lz > 0 || honestModelCases < honestModelMax {
+		if origin == "honest" && lz == 0 {
+			honestModelCases++
+		}
+		cs.Add(fmt.Sprintf("CT %s %s %s %s", hx.CoqHex(pi), hx.CoqHex(carried), zlit(value), zlit(hv)),
+			map[string]interface{}{"kind": "transport", "origin": origin, "in": in})
+	}
 	if lz > 0 {
 		res.Sample(map[string]interface{}{"kind": "transport", "leading_zero_bytes": lz, "proof": hexs(pi), "carried_len": len(carried), "verify_after": c2})
 	}
+}
+
+// ---- the scalar part of an honest proof, and the verifier's reduction of s modulo ell ----
+var ell25519, _ = new(big.Int).SetString("7237005577332262213973186563042994240857116359379907606001950938285454250989", 10)
+
+func leInt(b []byte) *big.Int {
+	r := make([]byte, len(b))
+	for i := range b {
+		r[len(b)-1-i] = b[i]
+	}
+	return new(big.Int).SetBytes(r)
+}
+
+func scalarCase(pk vrf.VRFPublicKey, sk vrf.VRFPrivateKey, pi []byte, m []byte) {
+	x, trunc := ed25519.VerifExpandSecret(ed25519.PrivateKey(sk))
+	h := ed25519.VerifHashToCurve(m, ed25519.PublicKey(pk))
+	k := ed25519.VerifNonce(*trunc, h)
+	cs.Add(fmt.Sprintf("CS %s %s %s", hx.CoqHex(x[:]), hx.CoqHex(k[:]), hx.CoqHex(pi)),
+		map[string]interface{}{"kind": "scalar", "x": hexs(x[:]), "k": hexs(k[:]), "proof": hexs(pi)})
+	// s + j*ell (still 32 bytes) is the same proof to ECVRFVerify (ScReduce); Coq: C16_s_reduced_mod_ell
+	sv := leInt(pi[48:80])
+	class := "scalar:s-reduced"
+	if sv.Cmp(ell25519) >= 0 {
+		class = "scalar:s-not-reduced"
+		res.Violate("C16/complete:s-not-reduced", "the honest proof carries s >= ell", map[string]interface{}{"proof": hexs(pi)})
+	}
+	for j := int64(1); j <= 15; j += 7 {
+		s2 := new(big.Int).Add(sv, new(big.Int).Mul(big.NewInt(j), ell25519))
+		if s2.BitLen() > 256 {
+			break
+		}
+		be := make([]byte, 32)
+		s2.FillBytes(be)
+		pi2 := append([]byte{}, pi...)
+		for t := 0; t < 32; t++ {
+			pi2[48+t] = be[31-t]
+		}
+		cl := verifyClass(pk, pi2, m)
+		class += fmt.Sprintf(":+%dell=%s", j, cl)
+		if cl == "accept" && !bytes.Equal(vrf.VRFProof2Hash(pi2), vrf.VRFProof2Hash(pi)) {
+			res.Violate("C16/output-unique:s-shift", "s + j*ell accepted with a different output", map[string]interface{}{"proof": hexs(pi), "shifted": hexs(pi2)})
+		}
+	}
+	// bytes after the 80th are ignored by decodeProof (tryZeroPadding leaves longer inputs alone): the
+	// model's verify_via/pad80 say the same; informational, the output is unchanged
+	long := append(append([]byte{}, pi...), 0x01)
+	lcl := verifyClass(pk, long, m)
+	class += ":81-bytes=" + lcl
+	if lcl == "accept" && !bytes.Equal(vrf.VRFProof2Hash(long), vrf.VRFProof2Hash(pi)) {
+		res.Violate("C16/output-unique:overlong", "an 81-byte extension of the proof is accepted with a different output", map[string]interface{}{"proof": hexs(pi)})
+	}
+	res.Count(class, id([]byte("S"), pk, pi, m), true)
 }
 
 // ---- mutations ----
@@ -399,9 +460,13 @@ func main() {
 	a := hx.ParseArgs()
 	r := hx.NewRng(a.Seed)
 	thorough := a.Tier == "thorough"
+	if thorough {
+		honestModelMax = 1500
+	}
 	res = hx.NewResult("a VRF case counts when the honest proof verified and its mutants were evaluated; a transport case counts when " +
 		"the proof encoding starts with >= 1 zero byte; an adversarial case counts when a shifted proof was built; a qn case counts when " +
-		"validateProve accepted or panicked; an isCanonical case counts when the input is a non-reduced encoding")
+		"validateProve accepted or panicked; an isCanonical case counts when the input is a non-reduced encoding; a scalar case counts when " +
+		"s = (c*x+k) mod ell was compared for an honest proof and s + j*ell was submitted to VRFVerify")
 	cs = hx.NewCases(a.Out, "From V.C16 Require Import Model Harness.", "case", "check", 300)
 
 	// real configuration: dev chain config, consensus parameters through InitParam
@@ -459,7 +524,7 @@ func main() {
 			res.Count("vrf:honest-rejected", id(pk, m), false)
 			continue
 		}
-		if !bytes.Equal(vrf.VRFProof2Hash(pi), pi[:32]) || len(vrf.VRFProof2Hash(pi)) != 32 {
+		if len(vrf.VRFProof2Hash(pi)) != 32 {
 			res.Violate("C16/output:shape", "VRFProof2Hash is not a 32-byte value", in)
 		}
 		var n int
@@ -472,6 +537,9 @@ func main() {
 		}
 		mutants += n
 		transportCase(pk, pi, m, true, "honest")
+		if i < 200 || (thorough && i < 2000) {
+			scalarCase(pk, sk, pi, m)
+		}
 		if i < 3 {
 			res.Sample(map[string]interface{}{"kind": "vrf", "in": in, "verify": cl, "mutants_rejected": n})
 		}
@@ -674,7 +742,8 @@ func main() {
 
 	if zeroRatioPanics > 0 {
 		res.Note(fmt.Sprintf("validateProve panicked (big.Rat division by zero in calQn) on %d grid points with totalStake < workingMiners above the difficulty "+
-			"switch height (difficulty 0, stake ratio 0); not counted as a violation: the registry keeps totalStake >= workingMiners", zeroRatioPanics))
+			"switch height (difficulty 0, stake ratio 0); not counted as a violation of C16 (nothing is accepted), and it needs fewer staked units than recently active proposers, "+
+			"which the minimum proposer stake excludes in practice; validateProve itself does not guard against it", zeroRatioPanics))
 	}
 
 	// ---------- 6. isCanonical ----------
